@@ -128,7 +128,7 @@ def near_capacity_cases(chk):
     tube, plate = g.fresh(), g.fresh()
     g.emit({'op': 'newc', 'out': tube, 'name': g.name(), 'init': [[1, q('60', 'u', 'L')], [5, q('12', 'n', 'mol')]]})
     g.emit({'op': 'newp', 'out': plate, 'name': g.name(), 'rows': 1, 'cols': 4, 'max': q('100', 'u', 'L')})
-    g.emit({'op': 'transfer', 'src': {'c': tube}, 'dst': {'p': plate, 'r': {'rect': [[0], [0, 1, 2, 3]]}}, 'q': q('10', 'u', 'L'), 'osrc': g.fresh(), 'odst': g.fresh()})
+    g.emit({'op': 'transfer', 'src': {'c': tube}, 'dst': {'p': plate, 'r': {'rect': [[0], [0, 1, 2, 3]]}}, 'q': q('10', 'u', 'L'), 'osrc': g.fresh(), 'odst': g.fresh()}, 'exact-decimals:dispense')
     out.append(g)
     return out
 
@@ -164,7 +164,8 @@ def run(chk, gate, status):
             if taken >= (6 if quick else 30):
                 break
     for g in near_capacity_cases(chk):
-        progs.append(g.prog()); kinds.append('near capacity')
+        # (amounts that every configuration stores without rounding are compared to three units of the last stored digit)
+        progs.append(dict(g.prog(), exact_decimals=True) if any(str(k).startswith('exact-decimals') for k in g.stats) else g.prog()); kinds.append('near capacity')
     rprogs, gen_refused = [], []
     for i in range(nr):
         rng = random.Random(chk.seed * 100003 + 181000 + i)
@@ -200,6 +201,8 @@ def run(chk, gate, status):
             rel = F(2, 10**3) if (pm >= 1 or pv >= 1) else F(1, 10**6)
             if pm >= 1:
                 atol_vol += atol_mol * F(1, 5) * 4        # up to ~0.2 L/mol, a few substances
+            if prog.get('exact_decimals'):
+                atol_mol = atol_vol = F(3, 10**10)
             msgs = []
             for i, (a, b) in enumerate(zip(ref, other)):
                 if a['ok'] != b['ok']:
